@@ -427,3 +427,32 @@ def proof_stage(run, prop, extra_targets=()):
                 run.violation("coqchk rejected TkProps.%s" % prop, {"log": info["coqchk"]}, found_input=False)
         run.notes["coqchk"] = info["coqchk"][-600:]
     return info
+
+
+# ---------------------------------------------------------------- the tackler CLI built from /repo's working tree
+CLI_BIN = os.path.join(TARGET, "cli", "debug", "tackler")
+
+
+def cli_build():
+    t0 = time.time()
+    rc, o, e = sh(["cargo", "build", "--offline", "-p", "tackler"], cwd=REPO, timeout=2400,
+                  env={"CARGO_TARGET_DIR": os.path.join(TARGET, "cli")})
+    if rc != 0 or not os.path.exists(CLI_BIN):
+        raise Infra("tackler CLI build failed (does /repo compile?):\n" + e[-3000:])
+    return time.time() - t0
+
+
+def run_cli(args, cwd=None, fsize_limit=None, timeout=60):
+    """run the tackler binary; stdout/stderr through pipes (not subject to RLIMIT_FSIZE)"""
+    import resource, signal
+
+    def pre():
+        if fsize_limit is not None:
+            signal.signal(signal.SIGXFSZ, signal.SIG_IGN)
+            resource.setrlimit(resource.RLIMIT_FSIZE, (fsize_limit, fsize_limit))
+        resource.setrlimit(resource.RLIMIT_AS, (8 << 30, 8 << 30))
+    try:
+        p = subprocess.run([CLI_BIN] + args, cwd=cwd, capture_output=True, text=True, timeout=timeout, preexec_fn=pre)
+        return p.returncode, p.stdout, p.stderr
+    except subprocess.TimeoutExpired:
+        return -999, "", "timeout"
